@@ -41,7 +41,7 @@ fn body(depth: usize, out: String) -> Result<(), String> {
     expect!("leaf.checked_append(root) is refused", leaf.checked_append(root, &mut a).is_err(), true);
     phase(&out, "C05:checked_insert_after(ancestor)");
     expect!("leaf.checked_insert_after(root) is refused", leaf.checked_insert_after(root, &mut a).is_err(), true);
-    phase(&out, "C05:valid-insert-at-depth");
+    phase(&out, "C05,C03:valid-insert-at-depth");
     // a possible insert is never refused, however many ancestors the target has
     let fresh = a.new_node(u32::MAX);
     expect!("leaf.checked_append(fresh node) succeeds", leaf.checked_append(fresh, &mut a).is_ok(), true);
@@ -76,7 +76,7 @@ fn body(depth: usize, out: String) -> Result<(), String> {
     phase(&out, "C04:remove");
     ids[1].remove(&mut a);
     expect!("root.descendants().count() after remove of one inner node", root.descendants(&a).count(), depth - 1);
-    phase(&out, "C04:remove_subtree");
+    phase(&out, "C04,C07:remove_subtree");
     root.remove_subtree(&mut a);
     expect!("every node is removed", a.iter().filter(|n| !n.is_removed()).count(), 0);
     phase(&out, "C07:recycle");
